@@ -1253,6 +1253,7 @@ package adaptation
 //@   props C06 C17
 //@   requires p != nil && p.impl != nil && cfgLockFree() && (p.impl.wasmImpl == nil ==> p.impl.ttrpcImpl != nil)
 //@   modifies p.events, lock(global("adaptation.timeoutCfgLock")), calls("api.Plugin.Configure"), calls("api.PluginService.Configure")
+//@   ensures [cfglock] cfgLockFree()
 //@   ensures [once]    implConfigure(p) == old(implConfigure(p)) + 1
 //@   ensures [ttrpc]   p.impl.wasmImpl == nil ==> (let n = old(ncalls("api.PluginService.Configure")) in let rpl = callret("api.PluginService.Configure", n, 0) in let e = callret("api.PluginService.Configure", n, 1) in
 //@                       hasdeadline(callarg("api.PluginService.Configure", n, 1))
@@ -1580,18 +1581,28 @@ package adaptation
 // and releases it exactly once per iteration on every path; activation (append + sort) happens
 // under the adaptation lock inside that section.  Runtime sections hold the sync lock shared.
 // (What these contracts cannot say is the interleaving theorem itself; see DESIGN.md.)
-// assumed about the two functions that build and start a plugin connection (not verified here):
-// they work on the new plugin object only, and a started plugin is well formed
+// assumed about the function that builds a plugin connection (not verified here): it works on
+// the new plugin object only and returns it connected
 //@ func Adaptation.newExternalPlugin
 //@   props C08 C17
 //@   trusted
-//@   ensures result.1 == nil ==> result.0 != nil && fresh(result.0)
+//@   ensures result.1 == nil ==> result.0 != nil && fresh(result.0) && wfPlugin(result.0) && result.0.regC != nil && result.0.closeC != nil && result.0.impl.wasmImpl == nil
+// A plugin is started by waiting for its registration (or the loss of its connection, or the
+// registration timeout) and then configuring it.  Whatever makes this fail, the plugin is
+// closed, and if NRI launched it, its process is killed and reaped: a plugin that is dropped
+// is not left running (C18), and it is never activated (C17).
 //@ func plugin.start
-//@   props C08 C17
-//@   trusted
-//@   requires p != nil
-//@   modifies object(p)
-//@   ensures result == nil ==> wfPlugin(p) && !p.closed
+//@   props C08 C17 C18
+//@   requires wfPlugin(p) && cfgLockFree() && p.regC != nil && p.closeC != nil && (p.impl.ttrpcImpl != nil ==> p.impl.wasmImpl == nil)
+//@   modifies object(p), lock(p.Mutex), lock(global("adaptation.timeoutCfgLock")), calls("multiplex.Mux.Close"), calls("multiplex.Mux.Unblock"), calls("(*github.com/containerd/ttrpc.Client).Close"), calls("(*github.com/containerd/ttrpc.Server).Close"), calls("net.Listener.Close")
+//@   modifies calls("(*os.Process).Kill"), calls("(*os.Process).Wait"), calls("(*os.Process).Release"), calls("api.Plugin.Configure"), calls("api.PluginService.Configure"), calls("time.After"), calls("go"), calls("chan.recv")
+//@   ensures [cfg]     cfgLockFree() && !held(p.Mutex)
+//@   ensures [ok]      result == nil ==> wfPlugin(p) && p.closed == old(p.closed)
+//@   ensures [closed]  result != nil ==> p.closed
+//@   ensures [killed]  result != nil && p.cmd != nil && p.cmd.Process != nil && p.impl.wasmImpl == nil ==> ncalls("(*os.Process).Kill") == old(ncalls("(*os.Process).Kill")) + 1
+//@                     && callarg("(*os.Process).Kill", old(ncalls("(*os.Process).Kill")), 0) == p.cmd.Process
+//@   ensures [alive]   result == nil ==> ncalls("(*os.Process).Kill") == old(ncalls("(*os.Process).Kill"))
+//@   ensures [same]    p.impl == old(p.impl) && p.cmd == old(p.cmd) && p.idx == old(p.idx) && p.base == old(p.base) && p.r == old(p.r)
 
 //@ func Adaptation.requestPluginSync
 //@   props C08
@@ -1606,12 +1617,12 @@ package adaptation
 
 //@ func Adaptation.acceptPluginConnections$1
 //@   props C08 C17
-//@   requires r != nil && l != nil && r.syncFn != nil && !held(r.syncLock) && rheld(r.syncLock) == 0 && !held(r.Mutex) && wfPlugins(r)
+//@   requires r != nil && l != nil && r.syncFn != nil && !held(r.syncLock) && rheld(r.syncLock) == 0 && !held(r.Mutex) && wfPlugins(r) && cfgLockFree()
 //@   modifies @writes
 //@   at call func:adaptation.Adaptation.syncFn assert held(r.syncLock) && !held(r.Mutex)
 //@   at call Adaptation.sortPlugins assert held(r.syncLock) && held(r.Mutex)
 //@   ensures [free] !held(r.syncLock) && rheld(r.syncLock) == 0 && !held(r.Mutex)
-//@   loop 1 invariant r != nil && r.syncFn != nil && !held(r.syncLock) && rheld(r.syncLock) == 0 && !held(r.Mutex) && wfPlugins(r)
+//@   loop 1 invariant r != nil && r.syncFn != nil && !held(r.syncLock) && rheld(r.syncLock) == 0 && !held(r.Mutex) && wfPlugins(r) && cfgLockFree()
 
 //@ func Adaptation.BlockPluginSync
 //@   props C08
